@@ -104,14 +104,16 @@ func (o op) String() string {
 // model state: sequenced entry ids in order, queued entry ids in order
 type mstate struct {
 	seq, queue []int
-	resigned   int  // how often the backend re-published the current tree with a later root timestamp
-	signFailed bool // a get-sth for the current tree head met a failing signer (HSM hiccup)
+	resigned   int // how often the backend re-published the current tree with a later root timestamp
+	signFailed int // a get-sth for the current tree head met a failing signer: 1 = down for the whole request, 2 = one failed call, then fine (a signer that is retried)
 }
 
 func (s mstate) key() string {
 	k := fmt.Sprint(s.seq, "|", s.queue, "|", s.resigned)
-	if s.signFailed {
-		k += "|signer failed once on this head"
+	if s.signFailed == 1 {
+		k += "|signer was down during a get-sth for this head"
+	} else if s.signFailed == 2 {
+		k += "|signer failed one call during a get-sth for this head"
 	}
 	return k
 }
@@ -127,11 +129,13 @@ func (s mstate) apply(o op) mstate {
 	n := mstate{append([]int{}, s.seq...), append([]int{}, s.queue...), s.resigned, s.signFailed}
 	switch o.Kind {
 	case "signfail":
-		n.signFailed = true
+		n.signFailed = 1
+	case "signfail1":
+		n.signFailed = 2
 	case "republish":
 		if n.resigned < 1 && len(n.seq) > 0 {
 			n.resigned++
-			n.signFailed = false
+			n.signFailed = 0
 		}
 	case "add":
 		if !n.has(o.Entry) {
@@ -142,12 +146,12 @@ func (s mstate) apply(o op) mstate {
 			n.seq = append(n.seq, n.queue[0])
 			n.queue = n.queue[1:]
 			n.resigned = 0
-			n.signFailed = false
+			n.signFailed = 0
 		}
 	case "seqall":
 		if len(n.queue) > 0 {
 			n.resigned = 0
-			n.signFailed = false
+			n.signFailed = 0
 		}
 		n.seq = append(n.seq, n.queue...)
 		n.queue = nil
@@ -165,18 +169,24 @@ type inst struct {
 	scts  map[int]*ct.AddChainResponse // SCT issued at the first 200 for each entry
 	lc    *client.LogClient
 	// signFail: while set, the log's signer refuses to sign
-	signFail *atomic.Bool
+	signFail  *atomic.Bool
+	signFailN *atomic.Int32
 }
 
 // flakySigner is the log key behind a switch (an HSM that is momentarily unavailable).
 type flakySigner struct {
 	crypto.Signer
-	fail *atomic.Bool
+	fail  *atomic.Bool
+	failN *atomic.Int32 // > 0: that many calls fail, then the signer works again
 }
 
 func (f flakySigner) Sign(rand io.Reader, digest []byte, opts crypto.SignerOpts) ([]byte, error) {
 	if f.fail.Load() {
 		return nil, errors.New("signer unavailable (injected)")
+	}
+	if f.failN.Load() > 0 {
+		f.failN.Add(-1)
+		return nil, errors.New("signer session dropped (injected, one call)")
 	}
 	return f.Signer.Sign(rand, digest, opts)
 }
@@ -185,8 +195,8 @@ func newInst(logKey string) (*inst, error) {
 	k := logKeys[logKey]
 	back := reflog.New(42)
 	clk := &fe.Clock{T: time.Unix(1, 0)}
-	sf := &atomic.Bool{}
-	f, err := fe.New(fe.Config{LogID: 42, Prefix: "c06", Roots: [][]byte{root.DER}, Signer: flakySigner{k.Priv, sf}, Client: back, Clock: clk})
+	sf, sfn := &atomic.Bool{}, &atomic.Int32{}
+	f, err := fe.New(fe.Config{LogID: 42, Prefix: "c06", Roots: [][]byte{root.DER}, Signer: flakySigner{k.Priv, sf, sfn}, Client: back, Clock: clk})
 	if err != nil {
 		return nil, err
 	}
@@ -194,7 +204,7 @@ func newInst(logKey string) (*inst, error) {
 	if err != nil {
 		return nil, err
 	}
-	return &inst{f: f, back: back, clock: clk, key: k, scts: map[int]*ct.AddChainResponse{}, lc: lc, signFail: sf}, nil
+	return &inst{f: f, back: back, clock: clk, key: k, scts: map[int]*ct.AddChainResponse{}, lc: lc, signFail: sf, signFailN: sfn}, nil
 }
 
 type nolog struct{}
@@ -268,6 +278,11 @@ func (c *checker) apply(in *inst, s mstate, o op, path []op) {
 		in.signFail.Store(true)
 		in.f.Get(ct.GetSTHPath)
 		in.signFail.Store(false)
+	case "signfail1":
+		// one get-sth during which exactly one call to the signer fails
+		in.signFailN.Store(1)
+		in.f.Get(ct.GetSTHPath)
+		in.signFailN.Store(0)
 	case "republish":
 		// the signer re-publishes the same tree with a later timestamp (Trillian does this
 		// periodically); a monitor polled get-sth just before
@@ -590,7 +605,7 @@ func TestCheck(t *testing.T) {
 	for e := range entries {
 		ops = append(ops, op{Kind: "add", Entry: e})
 	}
-	ops = append(ops, op{Kind: "seq1"}, op{Kind: "seqall"}, op{Kind: "republish"}, op{Kind: "signfail"})
+	ops = append(ops, op{Kind: "seq1"}, op{Kind: "seqall"}, op{Kind: "republish"}, op{Kind: "signfail"}, op{Kind: "signfail1"})
 	r.Rule(fmt.Sprintf("explicit-state BFS over histories: state = (sequenced entries in order, queued entries in order) of the reference backend behind a real front end; operations = add-chain/add-pre-chain of 4 entries (cert root-omitted, cert root-included, precert, pre-issued precert; fresh or duplicate at a later clock), sequencing steps of 1 or all, root timestamps with sub-millisecond nanos; states with up to %d sequenced entries; in every state every read endpoint with every in-range (and first out-of-range) parameter combination, for a P-256 and an RSA log key. Each state is built by replaying its shortest path on a fresh instance; the same state reached by a different last operation must serve identical bytes", maxSeq))
 	r.Assume("the reference backend (ref/reflog) stands for Trillian: de-duplication by identity hash echoing the stored leaf, explicit sequencing, RFC 6962 proofs from ref/merkle",
 		"the front end keeps no state that may influence a response except the STH signature cache, which is exercised by repeating get-sth")
@@ -667,7 +682,7 @@ func TestCheck(t *testing.T) {
 						transitions.Add(1)
 						// the real backend must now be in the model's successor state
 						want := ns
-						want.signFailed = false // not a property of the backend
+						want.signFailed = 0 // not a property of the backend
 						if got := backendShape(in2); got != want.key() {
 							c.viol("backend-state-differs-from-model", append(append([]op{}, n.path...), o), "backend %s, model %s", got, want.key())
 							continue
@@ -785,7 +800,7 @@ func backendShape(in *inst) string {
 // altPath builds a different operation path to the same state: entries are added
 // one at a time and sequenced one at a time (with duplicate submissions in between).
 func altPath(s mstate) []op {
-	if len(s.seq)+len(s.queue) == 0 || s.resigned > 0 || s.signFailed {
+	if len(s.seq)+len(s.queue) == 0 || s.resigned > 0 || s.signFailed != 0 {
 		return nil
 	}
 	var p []op
